@@ -1685,6 +1685,17 @@ private:
       }
       ::SSL_set_fd(s->ssl, cfd);
       ::SSL_set_connect_state(s->ssl);
+      if (!isIPv4 && !isIPv6)
+      {
+        // Connection made to a host name: announce it (SNI) and, when the peer
+        // is verified, require the certificate to be issued for that name -
+        // chain validation alone accepts any certificate of the trusted CA.
+        ::SSL_set_tlsext_host_name(s->ssl, cr.host.c_str());
+        if (_config.clientTls.verifyPeer)
+        {
+          ::SSL_set1_host(s->ssl, cr.host.c_str());
+        }
+      }
       s->tlsState = TlsState::Handshake;
       s->tlsStart = MonoClock::now();
       s->tlsWantWrite = true; // Client needs to send ClientHello first
